@@ -42,6 +42,10 @@ def rand_index(rng, labs, kind, mode, stats, allow_slice=True):
             absent = rng.choice([1, 2.5]) if kind == 'O' else 'zz'
             stats['absent_label_type']['other type'] += 1
             if rng.random() < 0.6: return {'l': [absent] * rng.randint(1, 2), 'as': rng.choice(['list', 'array'])}   # a list of that type only
+        if kind in ('i', 'f') and 0 not in labs and '0' not in [str(x) for x in labs] and rng.random() < 0.35:
+            # the absent label is ZERO (a falsy value must not read as "nothing is missing")
+            absent = 0 if kind == 'i' else 0.0; stats['absent_label_type']['zero'] += 1
+            if n and rng.random() < 0.8: return {'l': rng.choice([[absent], [rng.choice(labs), absent], [absent, rng.choice(labs)]]), 'as': rng.choice(['list', 'array'])}
         if rng.random() < 0.5 or n == 0: return {'s': absent}
         return {'l': [rng.choice(labs), absent] if rng.random() < 0.5 else [absent, rng.choice(labs)]}
     if ch == 'list':
